@@ -50,18 +50,31 @@ def un (w : World) (cfg : Cfg) : Ty → Obj → Obj
       if cfg.gen then .dict (unTD w cfg (w.fields c) kvs) else .dict (mkDict (unAnyKV w cfg kvs))
   -- `_unstructure_union` (both converter classes): by run-time class
   | .union _ _, x => unAny w cfg x
+  -- `namedtuple_unstructure_factory` (Converter): a tuple of the items unstructured by their declared types (when
+  -- no item needs conversion the instance itself is returned -- it IS that tuple); a BaseConverter has no
+  -- NamedTuple hook: the instance is left as the tuple it is
+  | .nt c, .inst _ fs => .coll .tuple (if cfg.gen then unT w cfg (w.ntTys c) (vals fs) else vals fs)
   | _, x => x
 termination_by t x => (sizeOf x, sizeOf t)
+decreasing_by
+  all_goals first
+    | decreasing_tactic
+    | (apply Prod.Lex.left; have := sizeOf_vals_lt fs; simp; omega)
 /-- unstructure by run-time class -/
 def unAny (w : World) (cfg : Cfg) : Obj → Obj
   | .enumM e m => enumValue w e m
   | .coll ck xs => mkColl (if cfg.gen then ck.anyTo else ck) (unAnyL w cfg xs)
   | .dict kvs => .dict (mkDict (unAnyKV w cfg kvs))
   | .inst c fs =>
-      if cfg.tupleStrat then .coll .tuple (unFieldsT w cfg (w.fields c) fs)
+      if w.isNT c then .coll .tuple (if cfg.gen then unT w cfg (w.ntTys c) (vals fs) else vals fs)
+      else if cfg.tupleStrat then .coll .tuple (unFieldsT w cfg (w.fields c) fs)
       else .dict (unFields w cfg (w.fields c) fs)
   | x => x
 termination_by x => (sizeOf x, 0)
+decreasing_by
+  all_goals first
+    | decreasing_tactic
+    | (apply Prod.Lex.left; have := sizeOf_vals_lt fs; simp; omega)
 def unL (w : World) (cfg : Cfg) (t : Ty) : List Obj → List Obj
   | [] => []
   | x :: xs => un w cfg t x :: unL w cfg t xs
